@@ -98,14 +98,14 @@ class Net:
         return "server" if who == "client" else "client"
 
     # -- application actions
-    def send(self, who, length, retry, with_cb=True, fill=None):
+    def send(self, who, length, retry, with_cb=True, fill=None, api=False):
         mid = self.next_id
         self.next_id += 1
         tag = b"%08d|" % mid
         body = fill if fill is not None else bytes((mid * 7 + i) % 251 for i in range(max(0, length - len(tag))))
         payload = (tag + body)[:length] if length >= len(tag) else (b"%d" % mid)[-length:] if length else b""
         cbid = mid if with_cb else None
-        outs = self.ep(who).apply(("send", payload, retry, cbid))
+        outs = self.ep(who).apply(("sendg", payload, cbid) if (api and retry == -1) else ("send", payload, retry, cbid))
         rec = {"payload": payload, "retry": retry, "time": self.t, "cb": cbid, "len": length,
                "accepted": not any(o[0] == 3 for o in outs) and self.ep(who).impl.conn.status.value == 2}
         self.sent[who][mid] = rec
